@@ -286,11 +286,13 @@ func ancestorsIdentical(final *simrt.Inode, before map[string]map[string]any, ex
 					continue
 				}
 				if old, ok := before[Abs(k)]; ok && !taggedRecord(ex, Abs(k)) {
-					// (records of files that a tagging component re-writes during the resume are exempt)
-					if !jsonEqual(old, child) {
+					// (records of files that a tagging component re-writes during the resume are
+					// exempt; tags attached by tagging components are ignored at every depth: they
+					// land on records shared by pointer at schedule-dependent moments)
+					if !jsonEqual(stripTaggerTags(old, ex), stripTaggerTags(child, ex)) {
 						ob, _ := json.Marshal(old)
 						cb, _ := json.Marshal(child)
-						return "ancestor-record-changed", fmt.Sprintf("%s > Upstream[%s] differs from the audit file of %s that was on disk before the resume:\n  on disk: %s\n  in new record: %s", where, k, k, clip2(ob), clip2(cb))
+						return "ancestor-record-changed", fmt.Sprintf("%s > Upstream[%s] differs from the audit file of %s that was on disk before the resume (first difference at %s):\n  on disk: %s\n  in new record: %s", where, k, k, firstDiff(old, child, ""), clip2(ob), clip2(cb))
 					}
 				}
 				if c, d := walk(child, where+" > Upstream["+k+"]"); c != "" {
@@ -322,6 +324,62 @@ func taggedRecord(ex *Expect, abs string) bool {
 		}
 	}
 	return false
+}
+
+// stripTaggerTags returns a copy of a decoded audit record without the tags
+// that tagging components attach.
+func stripTaggerTags(v any, ex *Expect) any {
+	m, ok := v.(map[string]any)
+	if !ok {
+		return v
+	}
+	out := map[string]any{}
+	for k, x := range m {
+		switch k {
+		case "Tags":
+			tm, _ := x.(map[string]any)
+			nt := map[string]any{}
+			for tk, tv := range tm {
+				if !ex.TagKeys[tk] {
+					nt[tk] = tv
+				}
+			}
+			out[k] = nt
+		case "Upstream":
+			um, _ := x.(map[string]any)
+			nu := map[string]any{}
+			for uk, uv := range um {
+				nu[uk] = stripTaggerTags(uv, ex)
+			}
+			out[k] = nu
+		default:
+			out[k] = x
+		}
+	}
+	return out
+}
+
+func firstDiff(a, b any, path string) string {
+	ma, oka := a.(map[string]any)
+	mb, okb := b.(map[string]any)
+	if oka && okb {
+		for _, k := range sortedKeys(ma) {
+			if _, ok := mb[k]; !ok {
+				return path + "/" + k + " (missing in new record)"
+			}
+			if !jsonEqual(ma[k], mb[k]) {
+				return firstDiff(ma[k], mb[k], path+"/"+k)
+			}
+		}
+		for _, k := range sortedKeys(mb) {
+			if _, ok := ma[k]; !ok {
+				return path + "/" + k + " (only in new record)"
+			}
+		}
+	}
+	x, _ := json.Marshal(a)
+	y, _ := json.Marshal(b)
+	return fmt.Sprintf("%s: %s vs %s", path, clip2(x), clip2(y))
 }
 
 func clip2(b []byte) string {
